@@ -994,8 +994,14 @@ def m3_to_etree(schema: Schema, rep: Report):
     rep.check("M3", "_listAppend:appends-member.to_etree()", ok, "" if ok else "base _listAppend does not append member.to_etree()", f"{rel}:{lfn.lineno}")
     rets = [n for n in nodes if isinstance(n, ast.Return)]
     rootnames = {t.id for st in own_statements(fn) if isinstance(st, ast.Assign) and isinstance(st.value, ast.Call) and dotted(st.value.func) in ("ET.Element", "Element") for t in st.targets if isinstance(t, ast.Name)}
+    tex_ = Expander(fn)
     for r in rets:
         v = r.value
+        if isinstance(v, ast.Name) and v.id not in rootnames:
+            # a temporary holding the ungroomed root (one hop)
+            b_ = [st_.value for st_ in own_statements(fn) if isinstance(st_, ast.Assign) and len(st_.targets) == 1 and isinstance(st_.targets[0], ast.Name) and st_.targets[0].id == v.id]
+            if len(b_) == 1:
+                v = b_[0]
         ok = v is not None and (
             (isinstance(v, ast.Name) and v.id in rootnames)
             or (isinstance(v, ast.Call) and isinstance(v.func, ast.Attribute) and v.func.attr == "ungroom" and len(v.args) == 1 and isinstance(v.args[0], ast.Name) and v.args[0].id in rootnames)
